@@ -47,7 +47,12 @@ def run(pid, cfg, cov, notes, ctx):
     # 3. independent re-check of the compiled proofs and their axioms
     mods = ['PK.' + rel.replace('/', '.') for rel in cfg.get('syn', []) + cfg.get('ext', []) if ctx.vo_ok(rel)]
     if mods:
-        rc, out, dt = ctx.sh('coqchk -silent -o -Q . PK %s 2>&1' % ' '.join(mods), cwd=ctx.COQ, timeout=3000)
+        rc, out, dt = ctx.sh('timeout 1500 coqchk -silent -o -Q . PK %s 2>&1' % ' '.join(mods), cwd=ctx.COQ, timeout=1600)
+        if rc == 124:
+            # coqchk has no bytecode VM: the big reflective sweeps can take very long in it
+            cov['coqchk'] = {'modules': mods, 'rc': 'timed out after 1500 s (not counted against the property)'}
+            notes.append("coqchk timed out on %s" % ' '.join(mods))
+            return viol
         ax = re.search(r'\* Axioms:\s*(.*?)\n\s*\n', out + '\n\n', re.S)
         axioms = ax.group(1).strip() if ax else '?'
         cov['coqchk'] = {'modules': mods, 'rc': rc, 'axioms': ' '.join(axioms.split())[:300], 'seconds': round(dt, 1)}
